@@ -139,6 +139,8 @@ func main() {
 		}
 	case "inject":
 		runInject(r, g, *tier, *what, *replay, *out, extra)
+	case "live":
+		runLive(r, g, *tier, *what, *replay, *out, extra)
 	default:
 		fmt.Fprintln(os.Stderr, "unknown command", cmd)
 		os.Exit(2)
